@@ -5705,9 +5705,11 @@ class NameCheckVisitor(node_visitor.ReplacingNodeVisitor):
                     )
                 )
 
-                if self.match_subject.value is NO_RETURN_VALUE:
-                    self._set_name_in_scope(LEAVES_SCOPE, node, NO_RETURN_VALUE)
-                else:
+                if self.match_subject.value is not NO_RETURN_VALUE:
+                    # Not exhaustive: execution may also fall through without
+                    # entering any case. (If the match is exhaustive, only the case
+                    # scopes flow on; combine_subscopes marks the scope as left when
+                    # all of them leave it.)
                     with self.scopes.subscope() as else_scope:
                         for constraint in constraints_to_apply:
                             self.add_constraint(node, constraint)
